@@ -26,10 +26,24 @@ def gen_over_itself(rnd):
                 quit_cb=None, quit_screen=None, exc_handler=True, run_empty=False, deliver_at=[])
 
 
+def gen_oneshot_dialogs(rnd):
+    """'create a dialog, push it (modal or not), forget it', many times: every dialog object is created when it is first needed and dropped by the application when it
+    was closed (lazy_screens: the adapter creates the objects on demand, forgets them at closed() and collects garbage) - a new dialog may live at the address of a dead one"""
+    k = rnd.randint(8, 40); modal = rnd.random() < 0.9       # (a screen shown in the outermost loop stays registered there as a signal source: only dialogs of modal loops are ever freed)
+    root = dict(id=0, name="S0", title=None, text="root", height=30, input_required=True, no_separator=False, skip_check=False,
+                scripts={"input": [{"acts": [["push_modal" if modal else "push", j + 1, rnd.choice([None, j])]], "ret": "REDRAW" if modal else "PROCESSED"} for j in range(k)] + [{"ret": "q"}]})
+    # (half of the dialogs take no input and close themselves once drawn: nothing of the input subsystem keeps a reference to them)
+    quiet = rnd.random() < 0.5
+    dialogs = [dict(id=j + 1, name="D%d" % (j + 1), title=None, text="dialog", height=30, input_required=not quiet, no_separator=False, skip_check=False,
+                    scripts=({"show": [{"acts": [["close_sig", j + 1]]}]} if quiet else {"input": [{"ret": rnd.choice(["CLOSE", "c", "CLOSE"])}]})) for j in range(k)]
+    return dict(op="machine", mode="tame", width=80, screens=[root] + dialogs, handlers=[], init=[["schedule", 0, None]], stdin=["x"] * (2 * k + 1),
+                quit_cb=None, quit_screen=None, exc_handler=True, run_empty=False, deliver_at=[], lazy_screens=True)
+
+
 def generate(rnd, tier):
     n = 500 if tier == "quick" else 6000
     sid = SidCounter()
-    cases = [gen_over_itself(rnd) for _ in range(n // 10)] + [gen_case(rnd, "tame", sid) for _ in range(n)] + [gen_case(rnd, "app", sid) for _ in range(n)]
+    cases = [gen_oneshot_dialogs(rnd) for _ in range(n // 25)] + [gen_over_itself(rnd) for _ in range(n // 10)] + [gen_case(rnd, "tame", sid) for _ in range(n)] + [gen_case(rnd, "app", sid) for _ in range(n)]
     return [with_cc(c) for c in cases]
 
 
